@@ -31,6 +31,9 @@ var l1 = map[string]string{
 	`"sync/atomic"`:  `"` + vrtPath + `/vatomic"`,
 	`"math/rand/v2"`: `"` + vrtPath + `/vrand"`,
 	`"os"`:           `"` + vrtPath + `/vos"`,
+	// packages that reach the file system behind os's back
+	`"path/filepath"`: `"` + vrtPath + `/vfilepath"`,
+	`"io/ioutil"`:     `"` + vrtPath + `/vioutil"`,
 }
 
 type edit struct {
